@@ -29,12 +29,6 @@ theorem noDangling_of_good {cfg : Cfg} {s : Ledger} (hg : Good cfg s) (hv : View
       subst hb
       exact absurd (view_block_unfreed hg hv hvm hl hbl) hf
 
-def tailCleanB (m : Mem) (b : Buf) : Bool :=
-  (b.chain.drop (b.w + 1)).all fun i =>
-    match m.nodes[i]? with
-    | some nd => !nd.exposed
-    | none => true
-
 theorem tailCleanB_sound {m : Mem} {b : Buf} (h : tailCleanB m b = true) : TailClean m b := by
   intro i hi nd hn
   unfold tailCleanB at h
@@ -43,21 +37,12 @@ theorem tailCleanB_sound {m : Mem} {b : Buf} (h : tailCleanB m b = true) : TailC
   rw [hn] at this
   simpa using this
 
-def tailOKB (s : Ledger) : Op → Bool
-  | .flush id | .wbin id _ _ | .book id _ _ _ | .rtail id _ | .app id _ =>
-    match s.getBuf id with
-    | some b => tailCleanB s.mem b
-    | none => true
-  | _ => true
-
 theorem tailOKB_sound {s : Ledger} {op : Op} (h : tailOKB s op = true) : TailOK s op := by
   cases op <;> simp only [tailOKB, TailOK] at h ⊢ <;> try trivial
   all_goals
     intro b hb
     rw [hb] at h
     exact tailCleanB_sound h
-
-def covVB (s : Ledger) (op : Op) : Bool := covB s op && tailOKB s op
 
 theorem covVB_sound {s : Ledger} {op : Op} (h : covVB s op = true) : CovV s op := by
   unfold covVB at h
